@@ -123,14 +123,18 @@ def _install_interceptors():
         if act is None:
             return orig_up(*a, **k)
         X = a[2] if len(a) > 2 else k["X"]
+        G = a[3] if len(a) > 3 else k["G"]
         n_before = len(X)
         last_before = X[-1] if n_before else None
+        pre = None
+        if act.on_update is not None:
+            m0 = a[5] if len(a) > 5 else k["mats"]
+            pre = mats_fingerprint(X, G, m0)
         mats = orig_up(*a, **k)
         accepted = not (len(X) == n_before and (n_before == 0 or X[-1] is last_before))
         act.up_log.append((act.n_events, accepted, len(X)))
         if act.on_update is not None:
-            G = a[3] if len(a) > 3 else k["G"]
-            act.on_update(act, a, k, X, G, mats, accepted)
+            act.on_update(act, a, k, X, G, mats, accepted, pre)
         return mats
 
     def approx_derivative(*a, **k):
@@ -156,6 +160,19 @@ _install_interceptors()
 
 
 # ------------------------------------------------------------------------ helpers
+def mats_fingerprint(X, G, mats):
+    """Exact fingerprint of the limited-memory state (deques + matrices)."""
+    h = hashlib.sha256()
+    for seq in (X, G):
+        h.update(b"[%d]" % len(seq))
+        for v in seq:
+            h.update(np.ascontiguousarray(v).tobytes())
+    h.update(struct.pack("<d", float(mats.theta)))
+    for m in (mats.W, mats.invMfactors[0], mats.invMfactors[1]):
+        h.update(repr(m.shape).encode() + np.ascontiguousarray(m).tobytes())
+    return h.hexdigest()
+
+
 def snapshot(res):
     """Deep, exact copy of the observable fields of a result / callback state."""
     hi = res.hess_inv
